@@ -122,6 +122,7 @@ var propImports = map[string][]imp{
 		{"C04.15/E3", "C11", "request state is accessed under the socket lock", []string{"C11.1/E3|protocol/req"}},
 	},
 	"C05": {
+		{"C05.17/waited-channel-stable", "C19", "the per-connection sender of REP/RESPONDENT keeps serving the queue replies are put on: a queue replaced under a parked sender accepts replies that are never written to the connection", []string{"C19.21/waited-channel-stable|protocol/rep", "C19.21/waited-channel-stable|protocol/xrep", "C19.21/waited-channel-stable|protocol/respondent", "C19.21/waited-channel-stable|protocol/xrespondent"}},
 		{"C05.16/lifecycle", "C13", "the protocol is told when a connection has gone (replies addressed to it are then discarded instead of blocking)", []string{"C13.2/detached", "C13.3/once-each"}},
 		{"C05.15/request-id-marker", "C03", "the id word that ends the backtrace is recognisable", []string{"C03.12/id-end-marker"}},
 		{"C05.13/E3", "C11", "routing state is accessed under the socket lock", []string{"C11.1/E3|protocol/rep", "C11.1/E3|protocol/respondent", "C11.1/E3|protocol/xrep", "C11.1/E3|protocol/xrespondent"}},
@@ -142,6 +143,7 @@ var propImports = map[string][]imp{
 		{"C07.16/E3", "C11", "survey state is accessed under the socket lock", []string{"C11.1/E3|protocol/surveyor", "C11.1/E3|protocol/xsurveyor", "C11.1/E3|protocol/respondent", "C11.1/E3|protocol/xrespondent"}},
 	},
 	"C08": {
+		{"C08.17/waited-channel-stable", "C19", "a STAR receiver waiting for room in the socket's receive queue, and a per-peer sender waiting on its queue, keep forwarding after a queue option is changed: a goroutine left on a replaced channel stops that peer's traffic for good", []string{"C19.21/waited-channel-stable|protocol/xstar", "C19.21/waited-channel-stable|protocol/xbus"}},
 		{"C08.16/redial-timer", "C14", "one connection per dialer: the redial timer is armed only by the two places that schedule a redial (a spent timer re-armed by an option setter dials a second connection, and every message then arrives twice)", []string{"C14.13/timer-discipline|redialer"}},
 		{"C08.14/inproc-copies", "C01", "each member gets a message of its own over inproc too (the hop count one member bumps is not the other's)", []string{"C01.7/inproc"}},
 		{"C08.15/queue-read-at-use", "C19", "a receiver delivers into the receive queue in force now, not the one it saw when the peer connected", []string{"C19.9/options-read-at-use|protocol/xstar", "C19.9/options-read-at-use|protocol/xbus"}},
@@ -217,6 +219,7 @@ var propImports = map[string][]imp{
 		{"C17.8/api-copies", "C01", "Recv hands out a copy of the body whatever its size; the message goes back to the pool", []string{"C01.8/api-copies"}},
 	},
 	"C18": {
+		{"C18.14/waited-channel-stable", "C19", "a call parked on a channel it took from a field is woken when the field is given another channel: otherwise it times out with a message waiting in the new one, or waits for ever", []string{"C19.21/waited-channel-stable"}},
 		{"C18.13/queue-swap-wakes", "C19", "a receiver blocked on a queue that is replaced is woken to look at the new one (otherwise it times out with a message waiting, or waits for ever)", []string{"C19.8/queue-swap-wakes"}},
 		{"C18.12/timer-fields", "C11", "deadline timers and deadline values are read and written under the socket lock: a timer stopped or replaced outside it is the wrong call's timer", []string{"C11.1/E3|Timer", "C11.1/E3|Expire", "C11.1/E3|Deadline"}},
 		{"C18.11/no-wait-under-lock", "C12", "no blocking wait while holding a socket lock: every other call on the socket would ignore its own deadline for as long", []string{"C12.2/E4"}},
